@@ -5,6 +5,9 @@ import (
 	"go/constant"
 	"go/token"
 	"go/types"
+	"strings"
+
+	"golang.org/x/tools/go/ssa"
 
 	"verif/gqlvet/core"
 )
@@ -20,7 +23,7 @@ func init() {
 	}
 	register(&core.Rule{Name: "C16/CHAN-once", Props: []string{"C16", "C09"}, Min: 4,
 		Doc: "worker goroutine publishes exactly one result, from its first deferred function, after recover()", Run: c16Once})
-	register(&core.Rule{Name: "C16/CHAN-cap", Props: []string{"C16"}, Min: 1,
+	register(&core.Rule{Name: "C16/CHAN-cap", Props: []string{"C16", "C15"}, Min: 1,
 		Doc: "result channel capacity >= send sites of the worker", Run: c16Cap})
 	register(&core.Rule{Name: "C16/DOM-select", Props: []string{"C16", "C09"}, Min: 6,
 		Doc: "caller returns from a blocking two-arm select {ctx.Done, result}; Done arm returns a fresh Result without Data carrying ctx.Err()", Run: c16Select})
@@ -418,4 +421,60 @@ func c16Partial(c *core.Ctx, r *core.Reporter) {
 	r.Check(outside == "", "ExecutePlan.worker.shared-result", s.worker.Pos(),
 		"every *Result the worker touches is declared inside the worker; it leaves only through the channel",
 		"the worker uses a *Result variable ("+outside+") declared outside the goroutine: a partially built result is reachable by the caller without the channel hand-off")
+}
+
+func init() {
+	register(&core.Rule{Name: "C16/DOM-caller", Props: []string{"C16"}, Min: 1,
+		Doc: "on the calling goroutine of ExecutePlan nothing runs schema-supplied code (scalars, resolvers): it all happens behind the ctx/result select", Run: c16Caller})
+}
+
+// c16Caller: ExecutePlan returns promptly on cancellation because everything that can block in user code (variable
+// coercion calls custom scalars' ParseValue, resolution calls resolvers) runs on the execution goroutine while the
+// caller waits in a select on ctx.Done(). Any such call made from ExecutePlan's own frame before the select is
+// not covered by it: a cancellation or deadline that hits during it is only noticed when the user code returns.
+// Extension hooks are excluded (they are the caller's own instrumentation and are the subject of C17).
+func c16Caller(c *core.Ctx, r *core.Reporter) {
+	fn := c.Func("", "ExecutePlan")
+	if fn == nil {
+		r.Unknown("ExecutePlan/caller-frame", token.NoPos, "not found")
+		return
+	}
+	node := c.CallGraph().Nodes[fn]
+	if node == nil {
+		r.Unknown("ExecutePlan/caller-frame", fn.Pos(), "not in the call graph")
+		return
+	}
+	rc := &core.ReachCfg{OnlyLib: c.IsLib}
+	for _, e := range node.Out {
+		if e.Site == nil || e.Callee.Func == nil || !c.IsLib(e.Callee.Func) {
+			continue
+		}
+		if _, isGo := e.Site.(*ssa.Go); isGo {
+			continue
+		}
+		rc.Roots = append(rc.Roots, e.Callee.Func)
+	}
+	// Reach adds a function's closures with it; ExecutePlan's own closures (the goroutine body) are not roots here
+	reach := c.Reach(rc)
+	bad, where := "", token.NoPos
+	for g := range reach {
+		if g == fn || g.Parent() == fn {
+			continue
+		}
+		for _, site := range core.CallSites(g) {
+			cb := core.UserCallback(site)
+			if cb == "" || strings.HasPrefix(cb, "Extension.") || strings.HasSuffix(cb, "FinishFunc") {
+				continue
+			}
+			w := cb + " via " + core.Witness(rc.Parent, g)
+			if bad == "" || w < bad {
+				bad, where = w, site.Pos()
+			}
+		}
+	}
+	if bad != "" {
+		r.Bad("ExecutePlan/caller-frame", where, "ExecutePlan's own frame (outside the execution goroutine, before the ctx/result select) reaches schema-supplied code: %s — a cancellation or deadline that hits while that code runs is not noticed until it returns, so the call does not return promptly", bad)
+	} else {
+		r.OK("ExecutePlan/caller-frame", fn.Pos(), "%d library functions reachable from the caller's frame; none calls a scalar, resolver or type callback", len(reach))
+	}
 }
